@@ -113,6 +113,13 @@ def crafted_instances():
     # held at the end of a run: continuation, and reset + rerun on the same and on a new Solver
     run2 = {'op': 'run', 'sid': 1, 'dt': dt / 2, 'T': dt * 3, 'dt_unit': 'ms', 'T_unit': 'sec'}
     out.append(('held_continue', {'elems': sl, 'load': ld(c0=5), 'ctrls': [], 'stops': [], 'ops': sched(5, more=[run2])}))
+    # the output re-indexed (and given a speed) by the user between a run that ended held and its continuation
+    out.append(('held_reindexed', {'elems': sl, 'load': ld(c0=5), 'ctrls': [], 'stops': [],
+                                   'ops': sched(5, more=[{'op': 'set_initial', 'pos': F(1, 2), 'spd': F(0)}, dict(run2, dt=dt, dt_unit='sec')])}))
+    out.append(('held_reindexed_moving', {'elems': sl, 'load': ld(c0=5), 'ctrls': [], 'stops': [],
+                                          'ops': sched(5, more=[{'op': 'set_initial', 'pos': F(-1, 4), 'spd': F(1, 3)}, run2])}))
+    out.append(('free_reindexed', {'elems': [motor, worm, wheel_free, out_gear], 'load': ld(c0=F(1, 100)), 'ctrls': [], 'stops': [],
+                                   'ops': sched(5, more=[{'op': 'set_initial', 'pos': F(1, 2), 'spd': F(-1, 3)}, run2])}))
     out.append(('held_reset_same', {'elems': sl, 'load': ld(c0=5), 'ctrls': [], 'stops': [],
                                     'ops': sched(5, spd0=2, more=[{'op': 'reset'}, {'op': 'set_initial', 'pos': F(0), 'spd': F(2)},
                                                                   {'op': 'run', 'sid': 1, 'dt': dt, 'T': dt * 5, 'dt_unit': 'sec', 'T_unit': 'sec'}])}))
